@@ -92,12 +92,35 @@ def eval_call(ex, node: ast.Call, st):
             return r
         nested = getattr(ex, "nested", {})
         if f.id in nested:
-            raise Unsupported(f"call of nested function {f.id}", node)
+            return _inline_nested(ex, nested[f.id], [ex.ev(a, st) for a in node.args], st, node)
     if isinstance(f, ast.Attribute):
         r = _method(ex, f, node, st)
         if r is not None:
             return r
     raise Unsupported(f"call `{txt}` has no contract, model or builtin semantics", node)
+
+
+def _inline_nested(ex, fdef, argv, st, node):
+    """Inline a nested (closure) function that has no side effects: evaluate its body on a copy of the state and
+    join the returned values."""
+    st2 = st.fork()
+    names = [a.arg for a in fdef.args.args]
+    if len(names) != len(argv):
+        raise Unsupported(f"nested function {fdef.name}: arity", node)
+    for n, v in zip(names, argv):
+        st2.env[n] = v
+    heap0 = dict(st2.heap)
+    n0 = len(st2.pc)
+    outs = ex.run_block(fdef.body, st2)
+    res = None
+    for o in outs:
+        if o.kind != "return":
+            raise Unsupported(f"nested function {fdef.name} does not simply return", node)
+        if set(o.st.heap) != set(heap0) or any(not o.st.heap[k].eq(heap0[k]) for k in heap0):
+            raise Unsupported(f"nested function {fdef.name} writes the heap", node)
+        cond = z3.And(*o.st.pc[n0:]) if len(o.st.pc) > n0 else z3.BoolVal(True)
+        res = o.val if res is None else T.ite(cond, o.val, res)
+    return res
 
 
 def _static_isinstance(v, cls):
@@ -239,7 +262,7 @@ def _apply_directive(ex, d, node, st, txt):
         return V(ret, outs)
     if kind == "havoc":
         ret = d[1]
-        for key in (d[2] if len(d) > 2 else []):
+        for key in expand_keys(d[2] if len(d) > 2 else []):
             _havoc_key(ex, st, key)
         return T.fresh(ret, "hv") if ret is not T.NoneT else T.NONE
     if kind == "contract":
@@ -564,6 +587,20 @@ def _opaque_reads(ex, name, argv, st):
     its body with everything revealed and recording the arrays touched)."""
     if name in _OPAQUE_READS:
         return _OPAQUE_READS[name]
+    declared = getattr(REG, "opaque_reads", {}).get(name)
+    if declared is not None:
+        from .engine import _arr_sort
+        reads = []
+        for key in expand_keys(declared):
+            srt = _key_sort(key)
+            doms = []
+            cur = srt
+            while isinstance(cur, z3.ArraySortRef):
+                doms.append(cur.domain())
+                cur = cur.range()
+            reads.append((key, (tuple(doms), cur)))
+        _OPAQUE_READS[name] = reads
+        return reads
     params, src = REG.ghost[name]
     st2 = st.fork()
     st2.env = {p: a for p, a in zip(params, argv)}
@@ -667,6 +704,9 @@ def _builtin(ex, name, node, st):
         return _quant_genexp(ex, name, args[0], node, st)
     if name == "list" and len(args) == 1:
         v = ex.ev(args[0], st)
+        if isinstance(v.ty, T.Ref) and REG.classes.get(v.ty.cls, {}).get("backing_list"):
+            fk = REG.field_key(REG.classes[v.ty.cls]["backing_list"], v.ty.cls)
+            v = ex.h.get_field(st, v.t, fk[0], fk[1])
         if isinstance(v.ty, T.List):
             # shallow copy
             r = ex.new_obj(st, "list")
@@ -698,6 +738,74 @@ def _builtin(ex, name, node, st):
             return T.mk_real(fn(to_real(x)))
         raise Unsupported(f"C cast to {cty}", node)
     return None
+
+
+def _list_sort(ex, lv, node, st):
+    """list.sort(key=f) -- external contract of the built-in (trusted): the list becomes a permutation of itself,
+    non-decreasing in the key, and stable (equal keys keep their relative order)."""
+    keyn = _kw(node, "key")
+    if keyn is None or node.args:
+        raise Unsupported("list.sort without key=", node)
+    ty = lv.ty
+    n = ex.h.list_len(st, lv.t, ty)
+    old = st.fork()
+    perm = z3.Function(T.fresh_name("sort_perm"), z3.IntSort(), z3.IntSort())     # new position -> old position
+    rows = []
+    for k, srt in enumerate(ty.t.sorts()):
+        key = ty.k_elem(k)
+        a = ex.h.arr(st, key, [Obj, z3.IntSort()], srt)
+        st.heap[key] = z3.Store(a, lv.t, z3.Const(T.fresh_name("sorted.row"), z3.ArraySort(z3.IntSort(), srt)))
+    ex.bump(st)
+    i, j = z3.Int(T.fresh_name("si")), z3.Int(T.fresh_name("sj"))
+    new_i = ex.h.list_get(st, ty, lv.t, i)
+    new_j = ex.h.list_get(st, ty, lv.t, j)
+    old_pi = ex.h.list_get(old, ty, lv.t, perm(i))
+
+    def keyof(v):
+        call = ast.Call(func=keyn, args=[ast.Name(id="__sort_elem", ctx=ast.Load())], keywords=[])
+        ast.copy_location(call, node)
+        st2 = st.fork()
+        st2.env["__sort_elem"] = v
+        return ex.ev(call, st2)
+
+    ki, kj = keyof(new_i), keyof(new_j)
+    inr = lambda x: z3.And(x >= 0, x < n)      # noqa: E731
+    st.pc.append(z3.ForAll([i], z3.Implies(inr(i), z3.And(inr(perm(i)), ex.equal(new_i, old_pi)))))
+    st.pc.append(z3.ForAll([i, j], z3.Implies(z3.And(inr(i), inr(j), i != j), perm(i) != perm(j))))
+    inv = z3.Function(T.fresh_name("sort_inv"), z3.IntSort(), z3.IntSort())
+    st.pc.append(z3.ForAll([i], z3.Implies(inr(i), z3.And(inr(inv(i)), perm(inv(i)) == i))))
+    le = ex.compare(ast.LtE(), ki, kj, st, node)
+    st.pc.append(z3.ForAll([i, j], z3.Implies(z3.And(inr(i), inr(j), i < j), le)))
+    eqk = ex.equal(ki, kj)
+    st.pc.append(z3.ForAll([i, j], z3.Implies(z3.And(inr(i), inr(j), i < j, eqk), perm(i) < perm(j))))
+    return T.NONE
+
+
+def _list_remove(ex, lv, node, st):
+    """list.remove(x): deletes the first element equal to x (ValueError if absent)."""
+    ty = lv.ty
+    x = T.coerce(T.opt_inner(ex.ev(node.args[0], st)), ty.t)
+    n = ex.h.list_len(st, lv.t, ty)
+    p = z3.Int(T.fresh_name("rm_pos"))
+    q = z3.Int(T.fresh_name("rq"))
+    at_q = ex.h.list_get(st, ty, lv.t, q)
+    present = z3.Exists([q], z3.And(q >= 0, q < n, ex.equal(at_q, x)))
+    if not ex.spec:
+        ex.oblige(st, "safety", f"remove-present@{node.lineno}", present, node, "list.remove(x): x not in list raises ValueError")
+    at_p = ex.h.list_get(st, ty, lv.t, p)
+    st.pc.append(z3.And(p >= 0, p < n, ex.equal(at_p, x)))
+    st.pc.append(z3.ForAll([q], z3.Implies(z3.And(q >= 0, q < p), z3.Not(ex.equal(at_q, x)))))
+    for k, srt in enumerate(ty.t.sorts()):
+        key = ty.k_elem(k)
+        a = ex.h.arr(st, key, [Obj, z3.IntSort()], srt)
+        row = z3.Select(a, lv.t)
+        jj = z3.Int(T.fresh_name("rj"))
+        new_row = z3.Lambda([jj], z3.If(jj < p, z3.Select(row, jj), z3.Select(row, jj + 1)))
+        st.heap[key] = z3.Store(a, lv.t, new_row)
+    ex.h.list_set_len(st, lv.t, n - 1, ty)
+    if ty.ghost_sum:
+        raise Unsupported("remove on a list with ghost sum", node)
+    return T.NONE
 
 
 def _quant_genexp(ex, name, ge, node, st):
@@ -778,6 +886,10 @@ def _method(ex, f: ast.Attribute, node, st):
         if name == "append":
             ex.list_append(st, base, ex.ev(node.args[0], st))
             return T.NONE
+        if name == "sort":
+            return _list_sort(ex, base, node, st)
+        if name == "remove":
+            return _list_remove(ex, base, node, st)
         if name == "extend":
             a0 = node.args[0]
             n0 = ex.h.list_len(st, base.t, ty)
